@@ -528,6 +528,7 @@ def r19(text, ctx):
 
 
 _R5_CACHE = {}
+_R5_ARITY = {}
 
 
 def r5_world_methods(ctx):
@@ -539,9 +540,11 @@ def r5_world_methods(ctx):
         if a.startswith('files '):
             files += a.split()[1:]
     key = (ctx.repo, tuple(files), tuple(sorted(a for a in ctx.rule_args.get('R5', []) if a.startswith('pure '))))
+    ctx.r5_key = key
     if key in _R5_CACHE:
         return _R5_CACHE[key]
     fns = {}
+    arities = {}
     for f in files:
         sf = SourceFile(os.path.join(ctx.repo, f))
 
@@ -549,8 +552,30 @@ def r5_world_methods(ctx):
             for it in items:
                 if it.kind == 'fn':
                     fns[it.name] = fns.get(it.name, '') + (it.body or '')
+                    st = lex(it.sig)
+                    o = next(i for i, t in enumerate(st) if t.text == '(')
+                    c = match_close(st, o)
+                    # count params other than the receiver
+                    depth = 0
+                    params = []
+                    cur = []
+                    for t in st[o + 1:c]:
+                        if t.text in ('(', '[', '<'):
+                            depth += 1
+                        elif t.text in (')', ']', '>'):
+                            depth -= 1
+                        if t.text == ',' and depth == 0:
+                            params.append(cur)
+                            cur = []
+                        else:
+                            cur.append(t.text)
+                    if cur:
+                        params.append(cur)
+                    k = len([p_ for p_ in params if 'self' not in p_[:3]])
+                    arities.setdefault(it.name, set()).add(k)
                 walk(it.children)
         walk(sf.items)
+    _R5_ARITY[key] = arities
     pure = set()
     for a in ctx.rule_args.get('R5', []):
         if a.startswith('pure '):
@@ -652,6 +677,23 @@ def r5(text, ctx):
     for i, t in enumerate(toks):
         if t.kind == 'ident' and t.text in methods and i > 0 and toks[i - 1].text == '.' and i + 1 < len(toks) and toks[i + 1].text == '(':
             if i >= 2 and toks[i - 2].text == 'world':
+                continue
+            # arity filter: std methods of the same name (e.g. Read::read_to_string(&mut buf)) are left alone
+            cl = match_close(toks, i + 1)
+            argc = 0
+            if cl > i + 2:
+                argc = 1
+                j = i + 2
+                while j < cl:
+                    if toks[j].text in ('(', '[', '{'):
+                        j = match_close(toks, j)
+                    elif toks[j].text == ',' and j + 1 < cl:
+                        argc += 1
+                    j += 1
+                if toks[i + 2].text in ('|', '||'):
+                    argc = -1
+            ar = _R5_ARITY.get(getattr(ctx, 'r5_key', None), {}).get(t.text)
+            if ar is not None and argc not in ar:
                 continue
             if toks[i + 2].text == ')':
                 edits.append((toks[i + 1].end, toks[i + 1].end, 'world'))
@@ -786,3 +828,14 @@ def r20(text, ctx):
             n += 1
             break
     return sig + '\x00' + body, n
+
+
+@rule('R26', '`std::io::copy(&mut A, &mut B)` -> `world.io_copy(&mut A, &mut B)` (assumed std behaviour in the write-through model)')
+def r26(text, ctx):
+    n = 0
+    def sub(m):
+        nonlocal n
+        n += 1
+        return 'world.io_copy('
+    out = re.sub(r'\b(?:std::)?io::copy\s*\(', sub, text)
+    return out, n
